@@ -132,6 +132,10 @@ func (o *oracleModel) modelStep(step, lres bson.D) (ref.Res, ref.Status) {
 	case "updateOne", "updateMany", "updateByID":
 		a := ref.UpdateArgs{Filter: asD(getD(step, "filter")), Update: asD(getD(step, "update")), ArrayFilters: toFilters(asA(getD(step, "arrayFilters"))), Upsert: asB(getD(step, "upsert")), Many: op == "updateMany"}
 		if op == "updateByID" {
+			// like the official driver, a nil id is rejected (mongo.ErrNilValue)
+			if getD(step, "id") == nil {
+				return ref.Res{Err: "other"}, ref.OK
+			}
 			a.Filter = bson.D{{Key: "_id", Value: getD(step, "id")}}
 		}
 		if id := getD(lres, "upsertedID"); isObjectID(id) {
